@@ -28,6 +28,9 @@ type Rule struct {
 	Chan    bool              `json:"chan"`    // channel points, close, select
 	Yield   []string          `json:"yield"`   // function names that get statement-level yield points
 	Consts  map[string]string `json:"consts"`  // const/var name -> new value expression
+	// RangeChan lists channel expressions (as printed, e.g. "m.flushChan") whose
+	// `for x := range ch` loops are rewritten into receive loops with a point.
+	RangeChan []string `json:"range_chan"`
 }
 
 type Spec struct {
@@ -113,6 +116,11 @@ func main() {
 		for name := range rule.Consts {
 			if !constsSeen[name] {
 				die("rule %d: constant %s not found", ri, name)
+			}
+		}
+		for _, c := range rule.RangeChan {
+			if !rangeChanSeen[c] {
+				die("rule %d: range over %s not found", ri, c)
 			}
 		}
 		for _, name := range rule.Yield {
@@ -546,6 +554,10 @@ func (r *rw) stmts(list []ast.Stmt) []ast.Stmt {
 				continue
 			}
 		}
+		if rs, ok := s.(*ast.RangeStmt); ok && r.rule.Chan && r.isRangeChan(rs) {
+			out = append(out, r.rangeChan(rs))
+			continue
+		}
 		if gs, ok := s.(*ast.GoStmt); ok && r.rule.Go {
 			out = append(out, r.goStmt(gs))
 			continue
@@ -553,6 +565,46 @@ func (r *rw) stmts(list []ast.Stmt) []ast.Stmt {
 		out = append(out, s)
 	}
 	return out
+}
+
+func exprString(e ast.Expr) string {
+	var buf bytes.Buffer
+	format.Node(&buf, token.NewFileSet(), e)
+	return buf.String()
+}
+
+func (r *rw) isRangeChan(rs *ast.RangeStmt) bool {
+	x := exprString(rs.X)
+	for _, c := range r.rule.RangeChan {
+		if c == x {
+			rangeChanSeen[c] = true
+			return true
+		}
+	}
+	return false
+}
+
+var rangeChanSeen = map[string]bool{}
+
+// for k := range ch { body }  ->  for { RecvPoint(ch); k, ok := <-ch; if !ok { break }; body }
+func (r *rw) rangeChan(rs *ast.RangeStmt) ast.Stmt {
+	if rs.Value != nil || (rs.Key != nil && rs.Tok != token.DEFINE) {
+		die("%s: unsupported range-over-channel form", r.fset.Position(rs.Pos()))
+	}
+	r.tmp++
+	ok := ast.NewIdent(fmt.Sprintf("vrangeOk%d", r.tmp))
+	var key ast.Expr = ast.NewIdent("_")
+	if rs.Key != nil {
+		key = rs.Key
+	}
+	recv := &ast.AssignStmt{Lhs: []ast.Expr{key, ok}, Tok: token.DEFINE, Rhs: []ast.Expr{&ast.UnaryExpr{Op: token.ARROW, X: rs.X}}}
+	if r.noPoint == nil {
+		r.noPoint = map[ast.Stmt]bool{}
+	}
+	r.noPoint[recv] = true
+	brk := &ast.IfStmt{Cond: &ast.UnaryExpr{Op: token.NOT, X: ast.NewIdent(ok.Name)}, Body: &ast.BlockStmt{List: []ast.Stmt{&ast.BranchStmt{Tok: token.BREAK}}}}
+	body := append([]ast.Stmt{r.call("RecvPoint", rs.X), recv, brk}, rs.Body.List...)
+	return &ast.ForStmt{Body: &ast.BlockStmt{List: body}}
 }
 
 func (r *rw) goStmt(gs *ast.GoStmt) ast.Stmt {
